@@ -19,7 +19,16 @@
 #include "co_core.h"
 
 /* ------------------------------------------------------------------ arena */
-#if defined(__SANITIZE_ADDRESS__)
+#if defined(__has_feature)
+#if __has_feature(memory_sanitizer)
+#include <sanitizer/msan_interface.h>
+#define HAVE_MSAN 1
+#endif
+#endif
+#ifndef HAVE_MSAN
+#define HAVE_MSAN 0
+#endif
+#if defined(__SANITIZE_ADDRESS__) || HAVE_MSAN          /* a sanitizer watches the heap: plain blocks, no canaries of our own */
 #define HAVE_ASAN 1
 #else
 #define HAVE_ASAN 0
@@ -144,15 +153,6 @@ static int16_t  d_can_read(CO_IF_FRM *f)
 }
 /* MemorySanitizer build: everything the node puts on the bus (identifier, DLC, the DLC data bytes) and hands to the application
  * has to be initialised memory - a frame assembled in a local variable of the stack must not carry stack garbage */
-#if defined(__has_feature)
-#if __has_feature(memory_sanitizer)
-#include <sanitizer/msan_interface.h>
-#define HAVE_MSAN 1
-#endif
-#endif
-#ifndef HAVE_MSAN
-#define HAVE_MSAN 0
-#endif
 static void frame_initialised(const char *what, CO_IF_FRM *f)
 {
 #if HAVE_MSAN
